@@ -100,10 +100,17 @@ type r2sibEvent struct {
 }
 
 type r2sibOpts struct {
-	Calls    *regexp.Regexp // additionally record calls whose callee's qualified name matches
-	Returns  bool           // record `return X` with X not the nil / zero literal
-	Stores   bool           // record map stores `m[k] = v`
-	NoInline bool           // do not re-root the events of helpers
+	Calls         *regexp.Regexp  // additionally record calls whose callee's qualified name matches
+	Returns       bool            // record `return X` with X not the nil / zero literal
+	Stores        bool            // record map stores `m[k] = v`
+	NoInline      bool            // do not re-root the events of helpers
+	Descents      bool            // record analysis-descent calls as events `descent <callee>(<term of the node>)`
+	CallArgs      bool            // the key of a recorded call names its first argument's term
+	InlineDescent *regexp.Regexp  // descents (qualified name) that are re-rooted like helpers
+	Only          map[string]bool // when set: only events of these kinds are recorded
+	// Relevant, when set, prunes the walked region: compound statements that contain no relevant node and no
+	// return / break / continue / panic are skipped (they cannot change which events a path passes)
+	Relevant func(n ast.Node) bool
 }
 
 type r2sibRoles struct {
@@ -185,15 +192,36 @@ func (e *r2sibEngine) resolveRoles() {
 			case "CheckAny":
 				e.roles.checkAny = fn
 			}
-			// diagnostic primitive: the body is one append of a Diagnostic literal to the diagnostics field
-			if len(fd.Body.List) == 1 && sig.Results().Len() == 0 {
-				if as, ok := fd.Body.List[0].(*ast.AssignStmt); ok && len(as.Rhs) == 1 {
-					if call, ok := as.Rhs[0].(*ast.CallExpr); ok && len(call.Args) == 2 {
-						if id, ok := call.Fun.(*ast.Ident); ok && id.Name == "append" {
-							if cl, ok := call.Args[1].(*ast.CompositeLit); ok {
-								if lvl := r2sibLitLevel(info, cl); lvl != "" {
-									e.roles.diagPrim[fn] = lvl
+			// diagnostic primitive, by role: a method (message string, notes []string, span Span) without result
+			// whose body names exactly one diagnostic level constant — in the literal it appends or as the
+			// argument of the helper that builds / appends it
+			if sig.Results().Len() == 0 && sig.Params().Len() == 3 {
+				p0, ok0 := sig.Params().At(0).Type().Underlying().(*types.Basic)
+				_, ok1 := sig.Params().At(1).Type().Underlying().(*types.Slice)
+				p2, ok2 := sig.Params().At(2).Type().(*types.Named)
+				if ok0 && p0.Info()&types.IsString != 0 && ok1 && ok2 && p2.Obj().Name() == "Span" {
+					levels := map[string]bool{}
+					ast.Inspect(fd.Body, func(n ast.Node) bool {
+						if e, ok := n.(ast.Expr); ok {
+							if kc := ConstOf(info, e); kc != nil {
+								if nt, ok := kc.Type().(*types.Named); ok && nt.Obj().Name() == "DiagnosticLevel" {
+									levels[kc.Name()] = true
 								}
+							}
+						}
+						return true
+					})
+					if len(levels) == 1 {
+						for n := range levels {
+							switch {
+							case strings.HasSuffix(n, "Error"):
+								e.roles.diagPrim[fn] = "error"
+							case strings.HasSuffix(n, "Warning"):
+								e.roles.diagPrim[fn] = "warn"
+							case strings.HasSuffix(n, "Hint"):
+								e.roles.diagPrim[fn] = "hint"
+							default:
+								e.roles.diagPrim[fn] = strings.ToLower(n)
 							}
 						}
 					}
@@ -335,6 +363,9 @@ type r2sibCollector struct {
 }
 
 func (k *r2sibCollector) record(kind, key string, attrs map[string]string, pos token.Pos, via string, call *ast.CallExpr, clause r2sibClause) {
+	if k.opts.Only != nil && !k.opts.Only[kind] {
+		return
+	}
 	id := fmt.Sprintf("%s|%d|%s", via, pos, key)
 	ev := k.events[id]
 	if ev == nil {
@@ -485,11 +516,27 @@ func (k *r2sibCollector) call(st *r2sibState, x *ast.CallExpr, clause r2sibClaus
 	}
 	qn := r2sibQualName(callee)
 	if k.opts.Calls != nil && k.opts.Calls.MatchString(qn) {
-		k.record("call", "call "+qn, nil, x.Pos(), "", x, clause)
+		key := "call " + qn
+		attrs := map[string]string{"callee": qn}
+		if len(x.Args) > 0 {
+			attrs["term"] = f.norm(x.Args[0])
+		}
+		if k.opts.CallArgs && len(x.Args) > 0 {
+			key += "(" + attrs["term"] + ")"
+		}
+		k.record("call", key, attrs, x.Pos(), "", x, clause)
+	}
+	isDescent := r2sibDescent(callee)
+	if k.opts.Descents && isDescent && len(x.Args) > 0 && k.e.declPkg[callee] == f.pkg {
+		t := f.norm(x.Args[0])
+		k.record("descent", "descent "+qn+"("+t+")", map[string]string{"callee": qn, "term": t}, x.Pos(), "", x, clause)
+	}
+	if isDescent && k.opts.InlineDescent != nil && k.opts.InlineDescent.MatchString(qn) {
+		isDescent = false
 	}
 	// helper with a summary: re-root its events here
 	fd := k.e.decls[callee]
-	if fd == nil || k.opts.NoInline || r2sibDescent(callee) || k.depth >= 3 || k.e.busy[callee] {
+	if fd == nil || k.opts.NoInline || isDescent || k.depth >= 3 || k.e.busy[callee] {
 		return
 	}
 	if k.e.declPkg[callee] != f.pkg {
@@ -537,7 +584,7 @@ func (e *r2sibEngine) summary(fn *types.Func, opts r2sibOpts, depth int) *r2sibS
 	if fd == nil {
 		return nil
 	}
-	key := fmt.Sprintf("%p|%v|%v|%v", fn, opts.Calls, opts.Returns, opts.Stores)
+	key := fmt.Sprintf("%p|%v|%v|%v|%v|%v|%v|%v", fn, opts.Calls, opts.Returns, opts.Stores, opts.Descents, opts.CallArgs, opts.InlineDescent, opts.Only)
 	if s, ok := e.sums[key]; ok {
 		return s
 	}
@@ -556,6 +603,9 @@ func (e *r2sibEngine) summary(fn *types.Func, opts r2sibOpts, depth int) *r2sibS
 func (e *r2sibEngine) extract(f *r2sibFunc, region []ast.Stmt, opts r2sibOpts, depth int) *r2sibSummary {
 	k := &r2sibCollector{e: e, f: f, opts: opts, depth: depth, events: map[string]*r2sibEvent{}}
 	info := f.info
+	if opts.Relevant != nil {
+		region = r2sibPrune(info, region, opts.Relevant)
+	}
 	w := &Walker[*r2sibState]{Clone: r2sibCloneState}
 	w.MaxPaths = 30000
 	w.IsPanic = func(s ast.Stmt) bool { return IsPanicCall(info, s) }
@@ -628,19 +678,49 @@ func (e *r2sibEngine) extract(f *r2sibFunc, region []ast.Stmt, opts r2sibOpts, d
 	w.OnCase = func(st *r2sibState, sw *ast.SwitchStmt, vals, others []ast.Expr) (*r2sibState, bool) {
 		k.scan(st, sw.Tag)
 		tag := f.norm(sw.Tag)
+		// decisions already taken on this path about the tag: infeasible clauses are not entered
+		known := map[string]bool{}
+		trueConst := ""
+		for _, l := range st.lits {
+			if strings.HasPrefix(l.atom, tag+" == ") {
+				known[l.atom] = l.val
+				if l.val && r2sibConstLike(l.atom[len(tag)+4:]) {
+					trueConst = l.atom[len(tag)+4:]
+				}
+			}
+		}
 		if vals == nil {
 			for _, o := range others {
-				st.lits = append(st.lits, r2sibLit{tag + " == " + f.norm(o), false})
+				a := tag + " == " + f.norm(o)
+				if v, ok := known[a]; ok && v {
+					return st, false
+				}
+				st.lits = append(st.lits, r2sibLit{a, false})
 			}
-			return st, true
-		}
-		if len(vals) == 1 {
-			st.lits = append(st.lits, r2sibLit{tag + " == " + f.norm(vals[0]), true})
 			return st, true
 		}
 		var vs []string
 		for _, v := range vals {
 			vs = append(vs, f.norm(v))
+		}
+		allFalse, allConst, hasTrue := true, true, false
+		for _, v := range vs {
+			if kv, ok := known[tag+" == "+v]; !ok || kv {
+				allFalse = false
+			}
+			if !r2sibConstLike(v) {
+				allConst = false
+			}
+			if v == trueConst {
+				hasTrue = true
+			}
+		}
+		if allFalse || trueConst != "" && allConst && !hasTrue {
+			return st, false
+		}
+		if len(vals) == 1 {
+			st.lits = append(st.lits, r2sibLit{tag + " == " + vs[0], true})
+			return st, true
 		}
 		sort.Strings(vs)
 		st.lits = append(st.lits, r2sibLit{"in(" + tag + "\x01" + strings.Join(vs, "\x01") + ")", true})
@@ -1109,4 +1189,84 @@ func r2sibSyntacticImp(a, b *r2sibDNF) bool {
 		}
 	}
 	return true
+}
+
+// r2sibPrune drops the statements of a region that can influence neither the events nor the control flow
+// between them: simple statements and compound statements without a relevant node and without a jump.
+func r2sibPrune(info *types.Info, list []ast.Stmt, relevant func(ast.Node) bool) []ast.Stmt {
+	matters := func(n ast.Node) bool {
+		hit := false
+		ast.Inspect(n, func(m ast.Node) bool {
+			if hit || m == nil {
+				return false
+			}
+			switch x := m.(type) {
+			case *ast.FuncLit:
+				return false
+			case *ast.ReturnStmt, *ast.BranchStmt, *ast.GoStmt, *ast.DeferStmt:
+				hit = true
+			case *ast.ExprStmt:
+				if IsPanicCall(info, x) {
+					hit = true
+				}
+			}
+			if !hit && relevant(m) {
+				hit = true
+			}
+			return !hit
+		})
+		return hit
+	}
+	var prune func(list []ast.Stmt) []ast.Stmt
+	pruneBlock := func(b *ast.BlockStmt) *ast.BlockStmt {
+		if b == nil {
+			return nil
+		}
+		return &ast.BlockStmt{Lbrace: b.Lbrace, List: prune(b.List), Rbrace: b.Rbrace}
+	}
+	prune = func(list []ast.Stmt) []ast.Stmt {
+		var out []ast.Stmt
+		for _, st := range list {
+			switch x := st.(type) {
+			case *ast.IfStmt:
+				if !matters(x) {
+					continue
+				}
+				cp := *x
+				cp.Body = pruneBlock(x.Body)
+				if eb, ok := x.Else.(*ast.BlockStmt); ok {
+					cp.Else = pruneBlock(eb)
+				}
+				out = append(out, &cp)
+			case *ast.ForStmt:
+				if !matters(x) {
+					continue
+				}
+				cp := *x
+				cp.Body = pruneBlock(x.Body)
+				out = append(out, &cp)
+			case *ast.RangeStmt:
+				if !matters(x) {
+					continue
+				}
+				cp := *x
+				cp.Body = pruneBlock(x.Body)
+				out = append(out, &cp)
+			case *ast.BlockStmt:
+				if !matters(x) {
+					continue
+				}
+				out = append(out, pruneBlock(x))
+			case *ast.SwitchStmt, *ast.TypeSwitchStmt, *ast.SelectStmt:
+				if !matters(x) {
+					continue
+				}
+				out = append(out, st)
+			default:
+				out = append(out, st)
+			}
+		}
+		return out
+	}
+	return prune(list)
 }
